@@ -367,6 +367,7 @@ int
 asn1c_save_compiled_output(arg_t *arg, const char *datadir, const char *destdir,
                            int argc, int optc, char **argv) {
     int ret = -1;
+    int types_seen = 0;
 
     const char* example_am_makefile = "Makefile.am.asn1convert";
     const char* program_makefile = "converter-example.mk";
@@ -395,6 +396,7 @@ asn1c_save_compiled_output(arg_t *arg, const char *datadir, const char *destdir,
             TQ_FOR(arg->expr, &(mod->members), next) {
                 if(asn1_lang_map[arg->expr->meta_type][arg->expr->expr_type]
                        .type_cb) {
+                    types_seen++;
                     ret = asn1c_dump_streams(arg, deps, destdir, optc, argv);
                     if(ret) break;
                 }
@@ -410,7 +412,13 @@ asn1c_save_compiled_output(arg_t *arg, const char *datadir, const char *destdir,
             break;
         }
 
-        if(ret) break;
+        if(ret) {
+            if(!types_seen) {
+                FATAL("No type assignments found in the given module(s), "
+                      "nothing to compile");
+            }
+            break;
+        }
 
         ret = asn1c__save_library_makefile(arg, deps, datadir, destdir,
                                            library_makefile);
